@@ -32,17 +32,17 @@ RULE = ("pack: 0-9 (value, offset) pairs, each a Python int (edge values of the 
 TRUSTED_BASE = [
     "Coq 8.16.1 kernel + vm_compute (no native_compute)",
     "translator/py2coq.py + translator/specs/{canonicalize_affine,stride_pattern}.py (meaning of the Python subset; views of xDSL classes)",
-    "hand models coq/Model/XdslAffine.v (xDSL 0.70 AffineExpr smart constructors; L1 each run), C19Pack.v, C19Transform.v, C19Stride.v (pattern semantics), PyLib.v",
+    "hand models coq/Model/XdslAffine.v (xDSL 0.70 AffineExpr smart constructors; L1 each run), C19Pack.v, C19Transform.v, C19Stride.v (pattern semantics), C19Text.v (token-level printer/parser), PyLib.v",
     "harness/props/c19*.py generators, xDSL/numpy -> Coq literal converters, the Python interpreter of arith ops and the address enumerator used by L2",
     "xDSL 0.70 (AffineExpr, AffineMap.eval, arith ops, IntegerAttr normalisation, Parser/Printer), numpy, harness/xdsl_compat.py",
 ]
 ASSUMPTIONS = [
-    "theorems about canonicalize_expr are partial-correctness statements (result = Some r): termination is not proved; an AssertionError is finding F22",
+    "theorems about canonicalize_expr are partial-correctness statements (result = Some r): termination is not proved (budget monotonicity and budget irrelevance are)",
     "eval totalises x // 0 and x % 0 (Z.div/Z.modulo by 0); dims/symbols are total functions of the position",
     "stride patterns: upper bounds >= 0 (refuted for two negative bounds, Example in Props/C19.v); index 0 is the innermost loop",
     "from_affine_map/to_affine_map round trip: results are pure affine (is_affine); refuted for a raw product of two dimensions",
     "arith.shli is modelled as shift in Z followed by truncation to w bits (a shift amount >= w gives 0; MLIR: poison)",
-    "print/parse of StridePattern / StreamerConfigurationAttr is checked on the implementation (L2), not modelled in Coq",
+    "print/parse is modelled at token level (Model/C19Text.v): xDSL's lexer is trusted; enum values spelled as string literals are not modelled; spatial dims >= 0 (the parser rejects negative ones)",
 ]
 ALLOWED_AXIOMS: list[str] = []
 
